@@ -36,6 +36,7 @@ namespace {
 
 const char* const K_STATIC = "C19:support-getter-reads-static-actual-call";
 const char* const K_REMOVE = "C19:remove-comparators-frees-nodes-still-referenced";
+const char* const K_HANDLE = "C19:call-handle-hasReturnValue-reads-current-support";
 
 // ---------------------------------------------------------------------------------------------------------------------
 // value domain
@@ -246,7 +247,8 @@ Val diff_variant(const Val& v) {
 // ---------------------------------------------------------------------------------------------------------------------
 // IR
 enum Op { OP_EXPECT, OP_ACTUAL, OP_SGET, OP_SETDATA, OP_GETDATA, OP_STRICT, OP_DISABLE, OP_ENABLE, OP_IGNORE_OTHER, OP_CHECK, OP_LEFT,
-          OP_CLEAR, OP_INST_CMP, OP_INST_COPY, OP_REMOVE_ALL, OP_CRASH };
+          OP_CLEAR, OP_INST_CMP, OP_INST_COPY, OP_REMOVE_ALL, OP_CRASH,
+          OP_LATE };   // use of the handle of the most recent actual call WITHOUT selecting a mock first: late parameters and / or a getter
 enum { EA_IN, EA_OUT_RET, EA_OUT_TYPE_RET, EA_UNMOD, EA_IGNORE_OTHERS, EA_RETURN };   // expectation modifiers
 enum { AA_IN, AA_OUT, AA_OUT_TYPE };                                                    // actual-call modifiers
 enum { G_NONE, G_HAS, G_GENERIC, G_TYPED, G_DEFAULT };
@@ -293,6 +295,15 @@ std::string stmt_str(const Stmt& s) {
         o += gs(s.g);
         break;
     case OP_SGET: o += gs(s.g); break;
+    case OP_LATE:
+        o = "handle-of-last-actual-call";
+        for (auto& a : s.args) switch (a.kind) {
+            case AA_IN: o += sfmt(".with(%s,%s)", a.name, val_str(a.v).c_str()); break;
+            case AA_OUT: o += sfmt(".withOutput(%s,OUT%d)", a.name, a.out); break;
+            case AA_OUT_TYPE: o += sfmt(".withOutputOfType(%s,%s,OUT%d)", a.v.otype, a.name, a.out); break;
+        }
+        o += gs(s.g);
+        break;
     case OP_SETDATA: o += s.dkind < 8 ? sfmt(".setData(%s,%s)", s.name, val_str(s.v).c_str()) : sfmt(".setData%sObject(%s,\"%s\",%p)", s.dkind == 9 ? "Const" : "", s.name, s.v.otype, s.v.obj); break;
     case OP_GETDATA: o += sfmt(".getData(%s)", s.name); break;
     case OP_STRICT: o += ".strictOrder()"; break;
@@ -533,6 +544,29 @@ void build(Reader& r, Program& P) {
         P.st.push_back(a);
         emitted++;
         unsigned follow = r.below(8);
+        if (follow == 2 || follow == 3) {
+            // keep the handle of this call and use it later: 0..3 statements that neither make another actual call nor destroy this
+            // one (no clear of its scope or of the global mock), mostly on OTHER scopes, then late parameters and / or a getter
+            Stmt late; late.op = OP_LATE; late.scope = a.scope;
+            if (!P.st.back().args.empty() && r.flag()) {   // the last parameter is supplied late; the call itself then asks nothing
+                late.args.push_back(P.st.back().args.back()); P.st.back().args.pop_back(); P.st.back().g.kind = G_NONE;
+            }
+            unsigned nint = follow == 3 ? 1 + r.below(3) : r.below(4);
+            for (unsigned q = 0; q < nint; q++) {
+                int osc = (follow == 2 && r.below(4) == 0) ? a.scope : (a.scope + 1 + (int)r.below(2)) % 3;
+                unsigned ik = r.below(6);
+                switch (ik) {
+                case 0: { Stmt d = simple(OP_SETDATA, osc, DNAMES[r.below(2)]); d.dkind = 1; d.v = gen_val(r, T_INT); P.st.push_back(d); break; }
+                case 1: case 5: P.st.push_back(simple(OP_GETDATA, osc, DNAMES[r.below(2)])); break;
+                case 2: P.st.push_back(simple(OP_LEFT, osc)); break;
+                case 3: P.st.push_back(simple(OP_CHECK, osc == a.scope ? (a.scope + 1) % 3 : osc)); break;
+                case 4: { Stmt e = simple(OP_EXPECT, osc == a.scope ? (a.scope + 1) % 3 : osc, "h"); Arg x; x.kind = EA_RETURN; x.v = gen_val(r, T_INT); e.args.push_back(x); P.st.push_back(e); break; }
+                }
+            }
+            late.g = gen_getter(r, sp);
+            if (devHere == 8) { late.g.kind = G_TYPED; late.g.t = sp.hasRet ? incompatible_type(sp.ret.t) : T_DOUBLE; }
+            P.st.push_back(late);
+        }
         if (follow == 4 || follow == 5 || follow == 7) {
             Stmt g = simple(OP_SGET, follow == 5 ? (a.scope + 1 + (int)r.below(2)) % 3 : a.scope);
             g.viaScopeFn = g.scope != 0 || r.flag();
@@ -628,6 +662,10 @@ struct Ctx {
     std::vector<char>* skip = nullptr;      // decided by A (known-finding exclusions), obeyed by B
     std::vector<char>* dcond = nullptr;     // A: support-level getter that reads another object in C than in C++
     std::vector<char>* rcond = nullptr;     // A: removeAll on a scope while other scopes still hold C comparator nodes
+    std::vector<char>* hcond = nullptr;     // A: hasReturnValue / OrDefault through a call handle while another mock is the current one
+    MockActualCall* handle = nullptr; MockSupport* lastSupport = nullptr;        // A
+    MockActualCall_c* handleC = nullptr; MockSupport_c* lastSupportC = nullptr;  // B
+    int curScope = 0;                       // A: scope selected by the most recent statement that addressed a mock
     std::vector<Entry> trace;
     bool completed = false;
     unsigned actualCalls = 0, valueGetters = 0;
@@ -692,8 +730,15 @@ void run_cpp(void* arg) {
             for (int sc = 0; sc < 3; sc++) if (s.scope != 0 && sc != s.scope && c->exists[sc] && c->inst[sc]) others = true;
             if (others || c->captured) { (*c->rcond)[k] = 1; if (verif::known(K_REMOVE)) { (*c->skip)[k] = 1; continue; } }
         }
-        touch_scope(c, s.scope);
-        MockSupport& m = (s.scope == 0 && !s.viaScopeFn) ? mock() : mock(SCOPES[s.scope]);
+        bool noGetter = false;
+        if (s.op == OP_LATE && (s.g.kind == G_HAS || s.g.kind == G_DEFAULT) && c->curScope != c->staticScope) {
+            // the C call table answers "has a return value" from the CURRENT mock, which is not the one the handle belongs to
+            (*c->hcond)[k] = 1;
+            if (verif::known(K_HANDLE)) { (*c->skip)[k] = 2; noGetter = true; }   // only the getter is left out
+        }
+        if (s.op != OP_LATE) { touch_scope(c, s.scope); c->curScope = s.scope; }
+        MockSupport& m = s.op == OP_LATE ? *c->lastSupport : ((s.scope == 0 && !s.viaScopeFn) ? mock() : mock(SCOPES[s.scope]));
+        c->lastSupport = &m;
         switch (s.op) {
         case OP_EXPECT: {
             if (s.ekind == 2) { m.expectNoCall(s.name); break; }
@@ -745,11 +790,14 @@ void run_cpp(void* arg) {
                 }
             }
             break; }
-        case OP_ACTUAL: {
-            MockActualCall* a = &m.actualCall(s.name);
-            bool ignored = a == &MockIgnoredActualCall::instance();
-            c->hasLive[s.scope] = !ignored; c->staticValid = true; c->staticIgnored = ignored; c->staticScope = s.scope;
-            c->actualCalls++;
+        case OP_ACTUAL: case OP_LATE: {
+            MockActualCall* a = c->handle;
+            if (s.op == OP_ACTUAL) {
+                a = &m.actualCall(s.name);
+                bool ignored = a == &MockIgnoredActualCall::instance();
+                c->hasLive[s.scope] = !ignored; c->staticValid = true; c->staticIgnored = ignored; c->staticScope = s.scope;
+                c->actualCalls++;
+            }
             for (auto& x : s.args) {
                 const Val& v = x.v;
                 switch (x.kind) {
@@ -776,9 +824,10 @@ void run_cpp(void* arg) {
                 case AA_OUT_TYPE: a = &a->withOutputParameterOfType(v.otype, x.name, OUT[x.out]); break;
                 }
             }
+            c->handle = a;
             std::string got;
             const Val& d = s.g.def;
-            switch (s.g.kind) {
+            switch (noGetter ? (int)G_NONE : (int)s.g.kind) {
             case G_NONE: got = "-"; break;
             case G_HAS: got = sfmt("has=%d", a->hasReturnValue() ? 1 : 0); break;
             case G_GENERIC: got = render_named(a->returnValue()); c->valueGetters++; break;
@@ -819,7 +868,7 @@ void run_cpp(void* arg) {
                 c->valueGetters++;
                 break;
             }
-            rec(c, k, sfmt("#%zu actual %s", k, got.c_str()) + out_bytes(s));
+            rec(c, k, sfmt("#%zu %s %s", k, s.op == OP_LATE ? "late" : "actual", got.c_str()) + out_bytes(s));
             break; }
         case OP_SGET: {
             std::string got;
@@ -934,10 +983,14 @@ void run_c(void* arg) {
     const std::vector<Stmt>& prog = *c->prog;
     for (size_t k = 0; k < prog.size(); k++) {
         const Stmt& s = prog[k];
-        if ((*c->skip)[k]) continue;
-        touch_scope(c, s.scope);
-        MockSupport_c* m;
-        if (s.scope == 0 && !s.viaScopeFn) { verif::cls("mock_c"); m = mock_c(); } else { verif::cls("mock_scope_c"); m = mock_scope_c(SCOPES[s.scope]); }
+        if ((*c->skip)[k] == 1) continue;
+        bool noGetter = (*c->skip)[k] == 2;
+        MockSupport_c* m = c->lastSupportC;
+        if (s.op != OP_LATE) {
+            touch_scope(c, s.scope);
+            if (s.scope == 0 && !s.viaScopeFn) { verif::cls("mock_c"); m = mock_c(); } else { verif::cls("mock_scope_c"); m = mock_scope_c(SCOPES[s.scope]); }
+        } else verif::cls("late-use-of-call-handle");
+        c->lastSupportC = m;
         switch (s.op) {
         case OP_EXPECT: {
             if (s.ekind == 2) { CS(expectNoCall)(s.name); break; }
@@ -988,8 +1041,8 @@ void run_c(void* arg) {
                 }
             }
             break; }
-        case OP_ACTUAL: {
-            MockActualCall_c* a = CS(actualCall)(s.name);
+        case OP_ACTUAL: case OP_LATE: {
+            MockActualCall_c* a = s.op == OP_ACTUAL ? CS(actualCall)(s.name) : c->handleC;
             for (auto& x : s.args) {
                 const Val& v = x.v;
                 switch (x.kind) {
@@ -1016,9 +1069,10 @@ void run_c(void* arg) {
                 case AA_OUT_TYPE: a = CA(withOutputParameterOfType)(v.otype, x.name, OUT[x.out]); break;
                 }
             }
+            c->handleC = a;
             std::string got;
             const Val& d = s.g.def;
-            switch (s.g.kind) {
+            switch (noGetter ? (int)G_NONE : (int)s.g.kind) {
             case G_NONE: got = "-"; break;
             case G_HAS: { int h = CA(hasReturnValue)(); got = sfmt("has=%d", h); break; }
             case G_GENERIC: { MockValue_c mv = CA(returnValue)(); got = render_c(mv); break; }
@@ -1057,7 +1111,7 @@ void run_c(void* arg) {
                 }
                 break;
             }
-            rec(c, k, sfmt("#%zu actual %s", k, got.c_str()) + out_bytes(s));
+            rec(c, k, sfmt("#%zu %s %s", k, s.op == OP_LATE ? "late" : "actual", got.c_str()) + out_bytes(s));
             break; }
         case OP_SGET: {
             std::string got;
@@ -1193,9 +1247,9 @@ extern "C" int verif_case(const uint8_t* data, size_t size) {
         fprintf(stderr, "deviation: %s\n", P.devName);
         for (size_t k = 0; k < n; k++) fprintf(stderr, "  #%zu %s\n", k, stmt_str(P.st[k]).c_str());
     }
-    std::vector<char> skip(n, 0), dcond(n, 0), rcond(n, 0);
+    std::vector<char> skip(n, 0), dcond(n, 0), rcond(n, 0), hcond(n, 0);
     Ctx A, B;
-    A.prog = B.prog = &P.st; A.skip = B.skip = &skip; A.dcond = B.dcond = &dcond; A.rcond = B.rcond = &rcond;
+    A.prog = B.prog = &P.st; A.skip = B.skip = &skip; A.dcond = B.dcond = &dcond; A.rcond = B.rcond = &rcond; A.hcond = B.hcond = &hcond;
     cleanup();
     verif::fake_millis_value = 0;
     RunResult ra = run_side(run_cpp, A);
@@ -1226,6 +1280,7 @@ extern "C" int verif_case(const uint8_t* data, size_t size) {
             size_t k = i < A.trace.size() && i < B.trace.size() ? std::min(A.trace[i].k, B.trace[i].k) : (i < A.trace.size() ? A.trace[i].k : B.trace[i].k);
             const char* sig = "C19:observed-value-differs";
             if (k < n && P.st[k].op == OP_SGET && dcond[k]) sig = K_STATIC;
+            if (k < n && P.st[k].op == OP_LATE && hcond[k]) sig = K_HANDLE;
             rc = verif::fail(sig, "statement #%zu (%s): C++ observed [%s], C observed [%s]; C++ failures=%zu (%s) C failures=%zu (%s) | %s",
                              k, k < n ? stmt_str(P.st[k]).c_str() : "?",
                              i < A.trace.size() ? A.trace[i].s.c_str() : "(statement not reached / test terminated)",
@@ -1233,14 +1288,18 @@ extern "C" int verif_case(const uint8_t* data, size_t size) {
                              ra.fr.failures, first_line(ra.fr.output).c_str(), rb.fr.failures, first_line(rb.fr.output).c_str(), ptxt.c_str());
         }
     }
+    // a difference that shows only in the verdict / text / check count is attributed to a listed condition when a statement under
+    // that condition was executed (only possible while the finding is NOT listed, so nothing is masked)
+    const char* attributed = nullptr;
+    for (size_t k = 0; k < n; k++) { if (hcond[k] && !skip[k]) attributed = K_HANDLE; if (dcond[k] && !skip[k] && !attributed) attributed = K_STATIC; }
     if (rc == 0 && (ra.fr.failures != rb.fr.failures || A.completed != B.completed))
-        rc = verif::fail("C19:verdict-differs", "C++: %zu failure(s), body %s; C: %zu failure(s), body %s; C++ text [%s] C text [%s] | %s",
+        rc = verif::fail(attributed ? attributed : "C19:verdict-differs", "C++: %zu failure(s), body %s; C: %zu failure(s), body %s; C++ text [%s] C text [%s] | %s",
                          ra.fr.failures, A.completed ? "completed" : "terminated", rb.fr.failures, B.completed ? "completed" : "terminated",
                          first_line(ra.fr.output).c_str(), first_line(rb.fr.output).c_str(), ptxt.c_str());
     if (rc == 0 && ra.fr.output != rb.fr.output)
-        rc = verif::fail("C19:failure-text-differs", "C++ text [%s] C text [%s] | %s", verif::printable(ra.fr.output.substr(0, 900)).c_str(), verif::printable(rb.fr.output.substr(0, 900)).c_str(), ptxt.c_str());
+        rc = verif::fail(attributed ? attributed : "C19:failure-text-differs", "C++ text [%s] C text [%s] | %s", verif::printable(ra.fr.output.substr(0, 900)).c_str(), verif::printable(rb.fr.output.substr(0, 900)).c_str(), ptxt.c_str());
     if (rc == 0 && ra.fr.checks != rb.fr.checks)
-        rc = verif::fail("C19:check-count-differs", "C++ counted %zu checks, C counted %zu | %s", ra.fr.checks, rb.fr.checks, ptxt.c_str());
+        rc = verif::fail(attributed ? attributed : "C19:check-count-differs", "C++ counted %zu checks, C counted %zu | %s", ra.fr.checks, rb.fr.checks, ptxt.c_str());
     if (rc == 0 && ra.outs != rb.outs)
         rc = verif::fail("C19:output-bytes-differ", "output buffers after the C++ run %s, after the C run %s | %s", ra.outs.c_str(), rb.outs.c_str(), ptxt.c_str());
     if (rc == 0 && ra.crashes != rb.crashes)
@@ -1251,7 +1310,7 @@ extern "C" int verif_case(const uint8_t* data, size_t size) {
     verif::cls(sfmt("deviation.%s", P.devName).c_str());
     verif::cls(ra.fr.failures ? "verdict.failing" : "verdict.passing");
     if (!ra.fr.failures && A.valueGetters) verif::cls("verdict.passing-with-value-getter");
-    for (size_t k = 0; k < n; k++) { if (dcond[k]) verif::cls("support-getter.cross-object"); if (rcond[k]) verif::cls("removeAll.on-scope-with-other-holders"); }
+    for (size_t k = 0; k < n; k++) { if (dcond[k]) verif::cls("support-getter.cross-object"); if (rcond[k]) verif::cls("removeAll.on-scope-with-other-holders"); if (hcond[k]) verif::cls("late-getter.has-or-default-under-another-current-mock"); }
 
     if (!nontrivial) verif::cls(A.actualCalls == 0 ? "trivial.no-actual-call" : ra.fr.failures ? "trivial.failed-before-any-value-getter" : "trivial.no-value-getter-generated");
     verif::note_case(nontrivial, r.h, [&] { return ptxt; });
@@ -1275,6 +1334,18 @@ void repro_static_c(void* p) {
     mock_scope_c("s2")->actualCall("g");
     ((Repro*)p)->c = mock_scope_c("s1")->intReturnValue();
 }
+void repro_handle_cpp(void* p) {
+    mock("s1").expectOneCall("f").andReturnValue(5);
+    MockActualCall& call = mock("s1").actualCall("f");
+    mock().setData("d0", 1);
+    ((Repro*)p)->cpp = call.returnIntValueOrDefault(9);
+}
+void repro_handle_c(void* p) {
+    mock_scope_c("s1")->expectOneCall("f")->andReturnIntValue(5);
+    MockActualCall_c* call = mock_scope_c("s1")->actualCall("f");
+    mock_c()->setIntData("d0", 1);
+    ((Repro*)p)->c = call->returnIntValueOrDefault(9);
+}
 void repro_remove_c(void* p) {
     mock_c()->installComparator("T", c_eq0, c_str0);
     mock_scope_c("s1")->removeAllComparatorsAndCopiers();
@@ -1293,6 +1364,13 @@ extern "C" int verif_known_repro(const char* key) {
         verif::run_in_fixture(repro_static_cpp, &rp); cleanup();
         verif::run_in_fixture(repro_static_c, &rp); cleanup();
         fprintf(stderr, "repro %s: mock(\"s1\").intReturnValue() = %d, mock_scope_c(\"s1\")->intReturnValue() = %d\n", key, rp.cpp, rp.c);
+        return rp.cpp != rp.c ? 1 : 0;
+    }
+    if (k == K_HANDLE) {
+        Repro rp; cleanup();
+        verif::run_in_fixture(repro_handle_cpp, &rp); cleanup();
+        verif::run_in_fixture(repro_handle_c, &rp); cleanup();
+        fprintf(stderr, "repro %s: call.returnIntValueOrDefault(9) after mock().setData = %d, call->returnIntValueOrDefault(9) after mock_c()->setIntData = %d\n", key, rp.cpp, rp.c);
         return rp.cpp != rp.c ? 1 : 0;
     }
     if (k == K_REMOVE) {
